@@ -492,8 +492,8 @@ const preludeSMT = `
 (declare-fun bxor (Int Int) Int)
 (define-fun shl ((x Int) (k Int)) Int (* x (pow2 k)))
 (define-fun shr ((x Int) (k Int)) Int (div x (pow2 k)))
-(define-fun wrap ((x Int) (m Int)) Int (mod x m))
-(define-fun swrap ((x Int) (m Int)) Int (- (mod (+ x (div m 2)) m) (div m 2)))
+(define-fun wrap ((x Int) (m Int)) Int (ite (and (<= 0 x) (< x m)) x (mod x m)))
+(define-fun swrap ((x Int) (m Int)) Int (ite (and (<= (- (div m 2)) x) (< x (div m 2))) x (- (mod (+ x (div m 2)) m) (div m 2))))
 (assert (forall ((x Int) (y Int)) (! (=> (and (<= 0 x) (<= 0 y)) (and (<= 0 (band x y)) (<= (band x y) x) (<= (band x y) y))) :pattern ((band x y)))))
 (assert (forall ((x Int) (y Int)) (! (=> (and (<= 0 x) (<= 0 y)) (and (<= x (bor x y)) (<= y (bor x y)) (<= (bor x y) (+ x y)))) :pattern ((bor x y)))))
 (assert (forall ((x Int)) (! (= (band x 1) (mod x 2)) :pattern ((band x 1)))))
